@@ -602,8 +602,7 @@ class EncodeCatRows(Filter[Iterable[Union[Any,Dense,Sparse]], Iterable[Union[Any
                                 o[_k:_k+j],o[z:] = o[n:],o[_k:n]
                         else:
                             h = o.pop(_k).as_onehot
-                            for i,v in enumerate(h):
-                                if i != 0: o[f'{_k}_{v}'] = i
+                            o[f'{_k}_{h.index(1)}'] = 1
                 else:
                     for _k in k:
                         o[_k] =  o[_k].as_onehot
